@@ -1,10 +1,11 @@
 (** Extraction of every executable model. ExtrOcamlBasic only; numbers stay
     Coq's binary [positive]/[N]/[Z]; no Extract Constant. *)
 From Coq Require Import Extraction ExtrOcamlBasic.
-From Verif Require Import Immunity.ImmunityComp Lru.AdapterComp Lru.LruComp Fifo.FifoComp Persist.PersistComp Unit.UnitComp Time.TimeCacheComp Base.Generic Persist.ShardIdComp Txcache.PoolComp.
+From Verif Require Import Persist.CrashComp Immunity.ImmunityComp Lru.AdapterComp Lru.LruComp Fifo.FifoComp Persist.PersistComp Unit.UnitComp Time.TimeCacheComp Base.Generic Persist.ShardIdComp Txcache.PoolComp.
 Extraction Language OCaml.
 Separate Extraction
   Generic.run_steps
+  CrashComp.crash_component
   ImmunityComp.immunity_component
   AdapterComp.adapter_component
   LruComp.lru_component
